@@ -350,11 +350,12 @@ impl ChanceInfosetData {
 #[derive(Debug)]
 struct PlayerInfosetBuilder<A> {
     actions: Box<[A]>,
-    prev_infoset: Option<usize>,
+    /// the previous infoset of this player and the action taken there
+    prev_infoset: Option<(usize, usize)>,
 }
 
 impl<A> PlayerInfosetBuilder<A> {
-    fn new(actions: impl Into<Box<[A]>>, prev_infoset: Option<usize>) -> Self {
+    fn new(actions: impl Into<Box<[A]>>, prev_infoset: Option<(usize, usize)>) -> Self {
         PlayerInfosetBuilder {
             actions: actions.into(),
             prev_infoset,
@@ -374,7 +375,7 @@ impl<I, A> PlayerInfosetData<I, A> {
         PlayerInfosetData {
             infoset,
             actions: builder.actions,
-            prev_infoset: builder.prev_infoset,
+            prev_infoset: builder.prev_infoset.map(|(info, _)| info),
         }
     }
 
@@ -472,7 +473,7 @@ impl<I: Hash + Eq, A: Hash + Eq> Game<I, A> {
         player_infosets: &mut [&mut Builder<I, PlayerInfosetBuilder<A>>; 2],
         single_infosets: &mut [&mut HashMap<I, A>; 2],
         node: T,
-        mut prev_infosets: [Option<usize>; 2],
+        prev_infosets: [Option<(usize, usize)>; 2],
     ) -> Result<Node, GameError>
     where
         T: IntoGameNode<PlayerInfo = I, Action = A>,
@@ -578,16 +579,18 @@ impl<I: Hash + Eq, A: Hash + Eq> Game<I, A> {
                                 }
                             }
                         }?;
-                        *player_num.ind_mut(&mut prev_infosets) = Some(info_ind);
                         let next_verts: Result<Box<[_]>, _> = nexts
                             .into_iter()
-                            .map(|next| {
+                            .enumerate()
+                            .map(|(act, next)| {
+                                let mut next_infosets = prev_infosets;
+                                *player_num.ind_mut(&mut next_infosets) = Some((info_ind, act));
                                 Game::init_recurse(
                                     chance_infosets,
                                     player_infosets,
                                     single_infosets,
                                     next,
-                                    prev_infosets,
+                                    next_infosets,
                                 )
                             })
                             .collect();
